@@ -49,3 +49,23 @@ Theorem C15_sibling_name :
                      end)%string.
 Proof. exact sibling_name_shape. Qed.
 Print Assumptions C15_sibling_name.
+
+From Model Require Import Base Names Flt F32 Matches Detect Decode Utf Codecs Pipeline Cli.
+From Proofs Require Import DetectSound UtfFacts CliFacts CliComposed.
+Import ListNotations.
+
+(* the parameters of the CLI model instantiated: library := from_bytes over the pipeline that decodes with the modelled
+   codecs, writer := utf8_encode.  A write caused by input p with content c holds exactly the UTF-8 form of the STRICT
+   DECODE of c, minus the detected encoding's own mark, under the detected encoding (C01 inside C15) -- and that
+   file reads back, as UTF-8, to the same text *)
+Theorem C15_written_file_is_the_utf8_form_of_the_strict_decode :
+  forall (B : base_oracles) (cfg_of : F F32ops -> settings F32ops) fl inputs d p d',
+    effect F32ops (the_lib B cfg_of) utf8_encode fl inputs d p d' ->
+    d' = d \/
+    exists c best t,
+      lookup d p = Some (Regular c)
+      /\ d' = write d (target F32ops fl p best) (utf8_encode t)
+      /\ sdecode F32ops (pipeline_dec B) (m_enc F32ops best) (strip c (m_enc F32ops best)) = Some t
+      /\ (Forall scalar t -> utf8_strict_text (utf8_encode t) = Some t).
+Proof. exact written_file_is_the_utf8_form_of_the_strict_decode. Qed.
+Print Assumptions C15_written_file_is_the_utf8_form_of_the_strict_decode.
